@@ -266,7 +266,7 @@ def check_case(assign, acc):
 def _label(assign):
     """root-cause label: namespace kinds and adversarial names (which item of the namespace got
     the name does not matter)"""
-    return ",".join(sorted("%s=%r" % (ns, nm) for (ns, _it), nm in assign)) or "base"
+    return ",".join(sorted({"%s=%r" % (ns, nm) for (ns, _it), nm in assign})) or "base"
 
 
 def su_harness(msg):
@@ -301,13 +301,24 @@ def run_histories(acc, only=None):
     alone = {}
     for name, ps in specs:
         io.reset_writer_state()
-        alone[name] = _table(ps)
+        try:
+            alone[name] = _table(ps)
+        except Exception as e:
+            acc.violation("pddl:write:raises:%s|hist:%s" % (io.exc_name(e), name), "writing %r raised %s: %s" % (name, io.exc_name(e), e),
+                          {"kind": "hist", "first": name, "second": name})
     for (n1, p1), (n2, p2) in product(specs, specs):
         if only and (n1, n2) != tuple(only):
             continue
+        if n1 not in alone or n2 not in alone:
+            continue
         io.reset_writer_state()
-        _table(p1)
-        t2 = _table(p2)
+        try:
+            _table(p1)
+            t2 = _table(p2)
+        except Exception as e:
+            acc.violation("pddl:history:raises:%s|%s" % (io.exc_name(e), n2), "writing %r after %r raised %s: %s" % (n2, n1, io.exc_name(e), e),
+                          {"kind": "hist", "first": n1, "second": n2})
+            continue
         acc.count("evaluations")
         if t2 != alone[n2]:
             acc.count("nontrivial")
